@@ -90,7 +90,8 @@ Definition run_conveqc (x y : N) : list string :=
 
 Definition run_elfty (raw : N) : list string := [ line "section_type" (sElfType (elf_section_type raw)) ].
 Definition run_fb (b : N) : list string := [ line "fb_type" (sRes sFbId (fb_try_from b)) ].
-Definition run_magic : list string := [ line "magic" ("mbi=" ++ sN MBI_MAGIC ++ " hdr=" ++ sN HDR_MAGIC) ].
+Definition run_magic : list string :=
+  [ line "magic" ("mbi=" ++ sN MBI_MAGIC ++ " hdr=" ++ sN HDR_MAGIC ++ " header_tag_types=" ++ sN HDR_TAG_TYPES) ].
 
 (* cast 0 <k> <bytes> | cast 1 <F> <es> <ea> <bytes> *)
 Definition run_cast (p : profile) (d : sdesc) (bs : list byte) : list string :=
